@@ -213,6 +213,55 @@ func isCommentFormat(s string) bool {
 	return false
 }
 
+// commentOnly checks that the statements emit nothing but Go comments (helpers of the package are entered).
+func (c *ctx) commentOnly(fc *fileCtx, region []ast.Stmt, allowedCalls map[string]bool, depth int) string {
+	info := fc.pkg.TypesInfo
+	bad := ""
+	for _, st := range region {
+		ast.Inspect(st, func(m ast.Node) bool {
+			call, ok := m.(*ast.CallExpr)
+			if !ok {
+				return true
+			}
+			fn := astx.Callee(info, call)
+			full := fullName(fn)
+			switch {
+			case full == "fmt.Fprintf" || full == "fmt.Sprintf":
+				idx := 0
+				if full == "fmt.Fprintf" {
+					idx = 1
+				}
+				s, isC := constStr(fc, call.Args[idx])
+				if !isC || !isCommentFormat(s) {
+					bad = "source-map mode emits text that is not a Go comment: " + astx.Short(call.Args[idx])
+				}
+				for _, a := range call.Args[idx+1:] {
+					t := info.TypeOf(a)
+					if b, ok := t.Underlying().(*types.Basic); !ok || b.Info()&(types.IsInteger|types.IsString) == 0 {
+						bad = "comment argument of non-basic type"
+					}
+				}
+			case fn != nil && allowedCalls[fn.Name()]:
+			case fn == nil:
+				// conversions / builtins
+			default:
+				// a helper of the generator: what it does is what the branch does
+				if d := astx.DeclOfFunc(info, fc.pkg.Syntax, fn); d != nil && d.Body != nil && depth < 3 {
+					if dfc := c.fileOf(d); dfc != nil {
+						if b := c.commentOnly(dfc, d.Body.List, allowedCalls, depth+1); b != "" {
+							bad = b + " (in " + fn.Name() + ")"
+						}
+						return true
+					}
+				}
+				bad = "unmodelled call " + full + " under the source-map flag"
+			}
+			return true
+		})
+	}
+	return bad
+}
+
 // G16 mode flag is comment-only.
 func (c *ctx) modeFlag() {
 	allowedCalls := map[string]bool{"Base": true, "Position": true, "posInfo": true, "End": true, "Name": true, "resetMagicTokens": true, "WriteFile": true, "Bytes": true, "File": true, "Pos": true}
@@ -280,40 +329,7 @@ func (c *ctx) modeFlag() {
 					}
 				}
 			}
-			bad := ""
-			for _, st := range region {
-				ast.Inspect(st, func(m ast.Node) bool {
-					call, ok := m.(*ast.CallExpr)
-					if !ok {
-						return true
-					}
-					fn := astx.Callee(info, call)
-					full := fullName(fn)
-					switch {
-					case full == "fmt.Fprintf" || full == "fmt.Sprintf":
-						idx := 0
-						if full == "fmt.Fprintf" {
-							idx = 1
-						}
-						s, isC := constStr(fc, call.Args[idx])
-						if !isC || !isCommentFormat(s) {
-							bad = "source-map mode emits text that is not a Go comment: " + astx.Short(call.Args[idx])
-						}
-						for _, a := range call.Args[idx+1:] {
-							t := info.TypeOf(a)
-							if b, ok := t.Underlying().(*types.Basic); !ok || b.Info()&(types.IsInteger|types.IsString) == 0 {
-								bad = "comment argument of non-basic type"
-							}
-						}
-					case fn != nil && allowedCalls[fn.Name()]:
-					case fn == nil:
-						// conversions / builtins
-					default:
-						bad = "unmodelled call " + full + " under the source-map flag"
-					}
-					return true
-				})
-			}
+			bad := c.commentOnly(fc, region, allowedCalls, 0)
 			if bad != "" {
 				c.s.Bad("G16", key, c.pos(is), bad+": source-map output would differ from base output in more than comments")
 			} else {
@@ -1075,6 +1091,7 @@ func (c *ctx) typeKeyed() {
 var Rules = []report.Rule{
 	{ID: "G27", Floor: 3, Props: []string{"C14"}, Text: "the sentinel types of output-less tasks and of predicates are keys of the same structural type map as user types: the two families differ in their field type, and each member is named after the family's counter, incremented unconditionally first"},
 	{ID: "G32", Floor: 3, Props: []string{"C14"}, Text: "a cff.Params value is struck off the unused list only where no task provides its type, leftovers are reported, and no diagnostic of compileFlow's option loop depends on what other options contributed so far (acceptance is independent of the order of the options)"},
+	{ID: "G33", Floor: 5, Props: []string{"C13", "C20"}, Text: "every type handed to a type printer (base and modifier mode) is first checked for nameability where the generated code is placed - not an unexported type of another package, not a name that means something else at the directive, not a function-local type or type parameter in top-level code - and what the check records is returned by the driver between rendering and writing the output. Found F12, repaired."},
 	{ID: "G31", Floor: 5, Props: []string{"C13"}, Text: "every package name the base-mode generator hands to the templates (the import function, the type qualifier) is looked up in the scope of the directive first, and the recorded errors are returned before the output is written"},
 	{ID: "G30", Floor: 2, Props: []string{"C13"}, Text: "after compiling a Flow/Parallel directive the file walker either descends into it or scans its arguments for nested directives and reports them: no directive call is left unprocessed silently"},
 	{ID: "G28", Floor: 2, Props: []string{"C14"}, Text: "memo / visited-set keys of the validators' graph searches are total over the nodes: the key is the node (or its structural type) itself, or a field that every constructor of the node sets"},
@@ -1085,7 +1102,7 @@ var Rules = []report.Rule{
 	{ID: "G2", Floor: 4, Props: []string{"C17"}, Text: "no clock/environment/random/introspection source is consulted except the random magic token, which is read only by the comment printer (source-map mode) and the comment replacer; no go/select in the generator"},
 	{ID: "G3", Floor: 2, Props: []string{"C17"}, Text: "package-level variables are never written after initialisation; Process builds a fresh compiler and generator per file"},
 	{ID: "G4", Floor: 7, Props: []string{"C16", "C17"}, Text: "file-system mutations are exactly os.WriteFile(g.outputPath) plus the debug temp dump on the parse-failure path; outputPath flows from Process's parameter, which main derives from -file OUT or genFilename; the -file table holds only the OUT values the user gave, and the default output name is genFilename of the path of the very file handed to Process"},
-	{ID: "G5", Floor: 3, Props: []string{"C13", "C14"}, Text: "generation is dominated by CompileFile() == nil, which returns all recorded diagnostics"},
+	{ID: "G5", Floor: 2, Props: []string{"C13", "C14"}, Text: "generation is dominated by CompileFile() == nil, which returns all recorded diagnostics"},
 	{ID: "G6", Floor: 3, Props: []string{"C13"}, Text: "every output write is dominated by successful re-parse and format of the generated text"},
 	{ID: "G7", Floor: 1, Props: []string{"C13"}, Text: "go/constant accessors with panicking preconditions are dominated by a nil/kind test of the same value"},
 	{ID: "G8", Floor: 4, Props: []string{"C14"}, Text: "types.AssignableTo(value type, slot type): the collection element / fallback expression is the first operand, the parameter / task output the second"},
@@ -1144,6 +1161,7 @@ func Run(repo *load.Repo, s *report.Sink) error {
 		{[]string{"G30"}, c.walkerCompleteness},
 		{[]string{"G31"}, c.packageVisibility},
 		{[]string{"G32"}, c.inputAccounting},
+		{[]string{"G33"}, c.typeNameability},
 		{[]string{"G29"}, c.structuralAssertions},
 	}
 	for _, st := range steps {
